@@ -262,7 +262,7 @@ pub const SIG_ERR_KINDS: [&str; 11] = [
     "MalformedQueryString",
     "MissingAuthenticationToken",
 ];
-pub const FOREIGN_KINDS: [&str; 5] = ["io::Error", "HarnessError", "String", "SignatureError::IO", "SignatureError::Internal"];
+pub const FOREIGN_KINDS: [&str; 8] = ["io::Error", "HarnessError", "String", "SignatureError::IO", "SignatureError::Internal", "SignatureError::IO/TimedOut", "SignatureError::IO/NotFound", "SignatureError::IO/Interrupted"];
 
 #[derive(Debug)]
 pub struct HarnessError(pub String);
@@ -293,12 +293,11 @@ pub fn make_provider_error(a: &Answer, val: usize) -> BoxError {
             "io::Error" => Box::new(std::io::Error::new(std::io::ErrorKind::TimedOut, msg)),
             "HarnessError" => Box::new(HarnessError(msg)),
             "String" => msg.into(),
-            "SignatureError::IO" => {
-                // the status is fixed by the kind of SignatureError, not by what the io::Error says
-                use std::io::ErrorKind::*;
-                let kinds = [BrokenPipe, TimedOut, NotFound, Other, UnexpectedEof, ConnectionRefused, Interrupted, WouldBlock];
-                Box::new(SignatureError::IO(std::io::Error::new(kinds[val % kinds.len()], msg)))
-            }
+            // the status is fixed by the kind of SignatureError, not by what the io::Error inside says
+            "SignatureError::IO" => Box::new(SignatureError::IO(std::io::Error::new(std::io::ErrorKind::BrokenPipe, msg))),
+            "SignatureError::IO/TimedOut" => Box::new(SignatureError::IO(std::io::Error::new(std::io::ErrorKind::TimedOut, msg))),
+            "SignatureError::IO/NotFound" => Box::new(SignatureError::IO(std::io::Error::new(std::io::ErrorKind::NotFound, msg))),
+            "SignatureError::IO/Interrupted" => Box::new(SignatureError::IO(std::io::Error::new(std::io::ErrorKind::Interrupted, msg))),
             _ => Box::new(SignatureError::InternalServiceError(Box::new(HarnessError(msg)))),
         },
         _ => unreachable!(),
